@@ -44,15 +44,24 @@ def sh(cmd, cwd=None, timeout=None, env=None, stdin=None):
 
 
 class Lock:
+    """inter-process lock, re-entrant within this process"""
+    held = {}
     def __init__(self, name):
         os.makedirs(BUILD, exist_ok=True)
+        self.name = name
         self.path = os.path.join(BUILD, '.' + name + '.lock')
     def __enter__(self):
-        self.f = open(self.path, 'w')
-        fcntl.flock(self.f, fcntl.LOCK_EX)
+        if Lock.held.get(self.name, 0) == 0:
+            self.f = open(self.path, 'w')
+            fcntl.flock(self.f, fcntl.LOCK_EX)
+            Lock.held['f_' + self.name] = self.f
+        Lock.held[self.name] = Lock.held.get(self.name, 0) + 1
     def __exit__(self, *a):
-        fcntl.flock(self.f, fcntl.LOCK_UN)
-        self.f.close()
+        Lock.held[self.name] -= 1
+        if Lock.held[self.name] == 0:
+            f = Lock.held.pop('f_' + self.name)
+            fcntl.flock(f, fcntl.LOCK_UN)
+            f.close()
 
 
 # --------------------------------------------------------------------------------------
@@ -267,7 +276,7 @@ def classify_crash(stderr, rc):
     return 'FAULT:exit:%d' % rc
 
 
-def run_cases(exe, cases_path, ncases, env=None, timeout_per_run=120, args=()):
+def run_cases(exe, cases_path, ncases, env=None, timeout_per_run=120, args=(), max_faults=150):
     """Run an executable over a case file; returns list of result strings indexed by case.
     A crash / hang at case k is recorded as a FAULT:... result and the run resumes at k+1."""
     results = [None] * ncases
@@ -301,6 +310,10 @@ def run_cases(exe, cases_path, ncases, env=None, timeout_per_run=120, args=()):
         results[k] = classify_crash(err, rc)
         details[k] = err[-3000:]
         start = k + 1
+        if len(details) >= max_faults:
+            # a tree this broken needs no more evidence: stop, the caller truncates the case list
+            details['truncated_at'] = start
+            break
         if guard > ncases + 5:
             break
     return results, details
@@ -383,7 +396,7 @@ class PropertyCheck:
         return []
 
     def build_impl(self):
-        return build_impl(self.id.lower(), os.path.join(VERIF, 'harness', self.harness), **self.impl_kwargs)
+        return build_impl(self.id.lower() + '-' + getattr(self, 'tier', 'quick'), os.path.join(VERIF, 'harness', self.harness), **self.impl_kwargs)
 
 
 def compare(chk, cases, mouts, iouts):
@@ -442,6 +455,10 @@ def run_pair(chk, model_exe, impl_exe, cases, tag):
             f.write(c + '\n')
     mouts, minfo = run_model(model_exe, path, len(cases))
     iouts, idetails = run_cases(impl_exe, path, len(cases), timeout_per_run=chk.case_timeout)
+    cut = idetails.get('truncated_at')
+    if cut is not None:
+        del cases[cut:]
+        mouts, iouts = mouts[:cut], iouts[:cut]
     return mouts, iouts, idetails
 
 
@@ -457,6 +474,7 @@ def run_check(chk, argv):
         elif a == '--replay':
             replay = args.pop(0)
     tier = os.environ.get('VERIF_TIER', tier) if not argv else tier
+    chk.tier = tier
     seed = int(os.environ.get('VERIF_SEED', '20260930'))
     rng = random.Random(seed * 1000003 + int(chk.id[1:]))
     os.makedirs(os.path.join(VERIF, 'evidence'), exist_ok=True)
@@ -479,7 +497,13 @@ def run_check(chk, argv):
         return 1 if violations else 0
 
     # ---- 1/2: proof step -------------------------------------------------------------
-    pr = coq_property(chk.id)
+    coq_lock = Lock('coq')
+    coq_lock.__enter__()          # generation, proof step and extraction see one consistent Gen/
+    try:
+        pr = coq_property(chk.id)
+        model_exe, mlog = build_model(chk.family)
+    finally:
+        coq_lock.__exit__()
     forb = forbidden_scan()
     cov['obligations'] = pr['obligations']
     cov['discharged'] = pr['discharged'] if not forb else 0
@@ -502,7 +526,6 @@ def run_check(chk, argv):
         proof_broken = 'unexpected axioms: ' + ', '.join(bad_axioms)
 
     # ---- 3: implementation + model ----------------------------------------------------
-    model_exe, mlog = build_model(chk.family)
     impl_exe, ilog = chk.build_impl()
     if impl_exe is None:
         # the tree no longer builds with the harness: the tie cannot be established
